@@ -28,6 +28,8 @@ type C18Case struct {
 	// AfterString[i]: the i-th require is written after another string literal on its line
 	// (local s, m = "tag", require("mod"))
 	AfterString []bool     `json:"afterString,omitempty"`
+	// Again[i]: the i-th module is required a second time, inside a function further down the file
+	Again []bool `json:"again,omitempty"`
 	Events      []C18Event `json:"events"`
 }
 
@@ -54,6 +56,7 @@ func genC18(t *rapid.T) C18Case {
 	c.Mods = rapid.SliceOfNDistinct(rapid.SampledFrom(c18Mods), 1, 6, func(s string) string { return s }).Draw(t, "mods")
 	for range c.Mods {
 		c.AfterString = append(c.AfterString, rapid.IntRange(0, 3).Draw(t, "afterString") == 0)
+		c.Again = append(c.Again, rapid.IntRange(0, 2).Draw(t, "again") == 0)
 	}
 	c.Dofiles = rapid.SliceOfNDistinct(rapid.SampledFrom(c18Dofiles), 0, 2, func(s string) string { return s }).Draw(t, "dofiles")
 	c.Sep = rapid.SampledFrom([]string{".", ".", "/"}).Draw(t, "sep")
@@ -135,6 +138,14 @@ func checkC18(c C18Case, env *Env) *Violation {
 		fmt.Fprintf(&main, "%s%s\")\n", pre, d)
 		refs = append(refs, ref{0, d, true, line, len(pre) + 1, -1})
 		line++
+	}
+	for i, m := range c.Mods {
+		if i < len(c.Again) && c.Again[i] {
+			pre := "  return require(\""
+			fmt.Fprintf(&main, "local function again%d()\n%s%s\")\nend\n", i, pre, m)
+			refs = append(refs, ref{0, m, false, line + 1, len(pre) + 1, -1})
+			line += 3
+		}
 	}
 	mainText := main.String()
 	// the second requiring file holds the same calls
